@@ -1415,5 +1415,61 @@ fn main() {
     if run_traces {
         trace_stage(&mut rep, &args, &mut rng, c13, trace_replay);
     }
+    // targeted search: the model and the code disagree but no property oracle failed — look for a failing
+    // input among the neighbours of the disagreeing histories (oracle only, ~10x the quick budget)
+    if rep.oracle_failures.is_empty() && !rep.disagreements.is_empty() {
+        let seeds: Vec<Case> = rep
+            .disagreements
+            .iter()
+            .filter_map(|d| {
+                let l = d.case.split(" ## ").next().unwrap();
+                let l = l.strip_prefix("trace ").and_then(|r| r.split_once(' ')).map(|x| x.1).unwrap_or(l);
+                Case::decode(l)
+            })
+            .take(5)
+            .collect();
+        let mut alphabet = family_c06().alphabet;
+        alphabet.extend(family_c13().alphabet);
+        for i in 0..NSLOTS {
+            alphabet.extend([Op::Open(i, true, 7), Op::Open(i, false, 7), Op::Gd(i), Op::Gm(i, 11), Op::Delay(i)]);
+        }
+        let budget = 400_000u64;
+        'search: for k in 0..budget {
+            if seeds.is_empty() {
+                break;
+            }
+            let base = &seeds[(k as usize) % seeds.len()];
+            let mut ops = base.ops.clone();
+            for _ in 0..rng.range(1, 4) {
+                match rng.below(3) {
+                    0 if !ops.is_empty() => {
+                        let i = rng.below(ops.len() as u64) as usize;
+                        ops.remove(i);
+                    }
+                    1 if !ops.is_empty() => {
+                        let i = rng.below(ops.len() as u64) as usize;
+                        ops[i] = *rng.pick(&alphabet);
+                    }
+                    _ => {
+                        let i = rng.below(ops.len() as u64 + 1) as usize;
+                        ops.insert(i, *rng.pick(&alphabet));
+                    }
+                }
+            }
+            // complete clean-up so that "never appended" shows
+            ops.extend([Op::Wc, Op::Dref, Op::Dref, Op::Dref, Op::Dfg, Op::Dfg, Op::Dfg, Op::Ddg, Op::Ddg, Op::Gd(0), Op::Gd(1), Op::Gd(2), Op::Gd(3)]);
+            let c = Case { init: base.init, ops };
+            rep.search_cases += 1;
+            let o = run_case(&c, c13);
+            if let Some((key, _)) = &o.fail {
+                let small = shrink_case(&Case { init: c.init, ops: o.ops.clone() }, c13, key);
+                let oo = run_case(&small, c13);
+                let what = oo.fail.as_ref().map(|f| f.1.clone()).unwrap_or_default();
+                rep.oracle_failure(key, &Case { init: small.init, ops: oo.ops.clone() }.encode(), &oo.impl_line(), &what);
+                rep.search_found = true;
+                break 'search;
+            }
+        }
+    }
     rep.write(&args);
 }
